@@ -331,3 +331,114 @@ pub fn erroneous_projects() -> Vec<Project> {
     }
     out
 }
+
+/// One project per import DAG on five packages. Node 0 is Main; an edge (i, j) with i < j means
+/// "package i imports package j", so every bit mask over the 10 pairs is acyclic. Only graphs in
+/// which every package is reachable from Main are kept. `naming` decides which directory name a
+/// node gets, so that alphabetical order agrees with (0) or opposes (1) the topological order.
+/// `variant`: 0 = well-typed (prints the value the graph denotes), 1 = every leaf package has a
+/// type error (diagnostic order is observable), 2 = every leaf package declares a wrong package
+/// name (which fault is reported first is observable).
+pub struct DagSpec {
+    pub mask: u32,
+    pub naming: u8,
+    pub variant: u8,
+    pub edges: usize,
+}
+
+pub const DAG_N: usize = 5;
+
+pub fn dag_edges(mask: u32) -> Vec<(usize, usize)> {
+    let mut v = Vec::new();
+    let mut bit = 0;
+    for i in 0..DAG_N {
+        for j in (i + 1)..DAG_N {
+            if mask & (1 << bit) != 0 {
+                v.push((i, j));
+            }
+            bit += 1;
+        }
+    }
+    v
+}
+
+pub fn dag_specs() -> Vec<DagSpec> {
+    let mut out = Vec::new();
+    for mask in 0u32..(1 << (DAG_N * (DAG_N - 1) / 2)) {
+        let edges = dag_edges(mask);
+        let mut reach = [false; DAG_N];
+        reach[0] = true;
+        for (a, b) in &edges {
+            // edges are listed in ascending source order, and sources precede targets
+            if reach[*a] {
+                reach[*b] = true;
+            }
+        }
+        if reach.iter().any(|r| !*r) {
+            continue;
+        }
+        for naming in 0..2u8 {
+            for variant in 0..3u8 {
+                out.push(DagSpec { mask, naming, variant, edges: edges.len() });
+            }
+        }
+    }
+    out
+}
+
+pub fn dag_project(spec: &DagSpec) -> Project {
+    let names: [&str; DAG_N] = if spec.naming == 0 { ["Main", "A", "B", "C", "D"] } else { ["Main", "D", "C", "B", "A"] };
+    let edges = dag_edges(spec.mask);
+    fn value(i: usize, edges: &[(usize, usize)]) -> i64 {
+        let mut v = (i + 1) as i64;
+        for (a, b) in edges {
+            if *a == i {
+                v += value(*b, edges);
+            }
+        }
+        v
+    }
+    let mut files = Vec::new();
+    for i in 0..DAG_N {
+        let is_leaf = !edges.iter().any(|(a, _)| *a == i);
+        let decl = if spec.variant == 2 && is_leaf && i != 0 { format!("{}x", names[i]) } else { names[i].to_string() };
+        let mut s = format!("package {}\n", decl);
+        for (a, b) in &edges {
+            if *a == i {
+                s.push_str(&format!("import {}\n", names[*b]));
+            }
+        }
+        s.push('\n');
+        let n = names[i];
+        s.push_str(&format!("struct S{} {{ v: int32 }}\nenum E{} {{ K{}(int32), N{} }}\nfn id{}[T](x: T) -> T {{ x }}\n", n, n, n, n, n));
+        let mut sum = format!("id{}(S{} {{ v: {} }}).v", n, n, i + 1);
+        for (a, b) in &edges {
+            if *a == i {
+                sum.push_str(&format!(" + {}::f{}()", names[*b], names[*b]));
+            }
+        }
+        if i == 0 {
+            s.push_str(&format!("fn main() {{ string_println(int32_to_string({})) }}\n", sum));
+        } else if spec.variant == 1 && is_leaf {
+            s.push_str(&format!("fn f{}() -> int32 {{ {} + true }}\nfn g{}() -> bool {{ {} }}\n", n, sum, n, i));
+        } else {
+            s.push_str(&format!("fn f{}() -> int32 {{ {} }}\n", n, sum));
+        }
+        let path = if i == 0 { "main.gom".to_string() } else { format!("{}/lib.gom", n) };
+        files.push((path, s));
+    }
+    Project {
+        name: format!("dag5;mask={:#05x};naming={};variant={}", spec.mask, spec.naming, spec.variant),
+        files,
+        expected_stdout: if spec.variant == 0 { Some(format!("{}\n", value(0, &edges))) } else { None },
+    }
+}
+
+/// all DAG projects (index-stable); the tiers select by edge count
+pub fn dag_projects() -> Vec<Project> {
+    dag_specs().iter().map(dag_project).collect()
+}
+
+pub fn dag_in_tier(spec: &DagSpec, quick: bool) -> bool {
+    if quick { spec.edges <= 4 || (spec.edges == 5 && spec.variant == 0 && spec.naming == 1) } else { true }
+}
